@@ -163,6 +163,38 @@ PROPS["C19"] = dict(
     stubs=["namespace (SimFS) incl. the honeypot file", "hostile document generator"],
 )
 
+PROPS["C15"] = dict(
+    engine="cryptosim", level="fault_enumeration", quick=0, thorough=0, quick_wall=300, thorough_wall=2400,
+    rule=("one evaluation = one (sealed VMX, tamper) pair from an enumerated plan. Fault-free: 54 (quick) / 216 (thorough) sealer "
+          "configurations covering AES-128/192/256 x HMAC-SHA-1 / HMAC-SHA-1-128 / HMAC-SHA-256 x PBKDF2-SHA-1/256 x rounds x salt "
+          "lengths x 1-4 pairs x configuration lengths of every padding residue; unlock must yield exactly the sealed entries. "
+          "Tamper faults: every byte position of the wrapped-key blob and of encryption.data (IV, ciphertext, MAC) x masks "
+          "{0x01,0x80,0xFF} (16 masks in thorough), truncation, and six wrong-passphrase variants; unlock must raise and leave "
+          "VMX.attr unchanged. distinct = (cipher, MAC, KDF, tamper kind, multi-pair) tuples; every evaluation is non-trivial."),
+    expected_probes=["crypto.C15_none", "crypto.C15_wrap", "crypto.C15_data", "crypto.C15_pass", "crypto.mac_HMAC-SHA-1", "crypto.mac_HMAC-SHA-1-128",
+                     "crypto.mac_HMAC-SHA-256", "crypto.cipher_AES-128", "crypto.cipher_AES-192", "crypto.cipher_AES-256",
+                     "crypto.kdf_PBKDF2-HMAC-SHA-1", "crypto.kdf_PBKDF2-HMAC-SHA-256"],
+    assumptions=["the sealer stub follows the scheme the reader cites (no public spec); anchored on tests/data/encrypted.vmx unlocking with 'password'",
+                 "key safes hold passphrase pairs only"],
+    real=["dissect.hypervisor.descriptor.vmx", "hashlib/hmac", "PyCryptodome AES-CBC"], stubs=["key safe / configuration sealer", "tamper injector"],
+)
+PROPS["C16"] = dict(
+    engine="cryptosim", level="fault_enumeration", quick=0, thorough=0, quick_wall=300, thorough_wall=2400,
+    rule=("one evaluation = one (sealed envelope + keystore, tamper) pair from an enumerated plan. Fault-free: 40 / 200 sealer "
+          "configurations (payload lengths hitting the padding extremes, attribute sets of every AttributeType in any order, "
+          "with/without AAD, padding and filler variants, keystore text styles) - Envelope.decrypt must return the payload, the CLI "
+          "must write exactly those bytes to --output on the simulated namespace, KeyStore must derive the stub's key. Tamper faults: "
+          "every byte of every attribute record (type, flag, name, value) x masks, ciphertext positions (head, tail, strided), every "
+          "tag byte, tag size, footer version, AAD variants, wrong keys, CLI on a tampered envelope; decrypt must raise and return "
+          "nothing. distinct = (tamper kind/region, AAD?, #extra attributes, payload residue) tuples."),
+    expected_probes=["crypto.C16_none", "crypto.C16_byte", "crypto.C16_aad", "crypto.C16_key", "crypto.C16_cli", "crypto.C16_keystore", "crypto.C16_tagsize_set"] +
+                    ["crypto.attr_type_%x" % t for t in range(1, 13)],
+    assumptions=["reserved bytes of attribute records, the zero fill after the terminator and the header size word are not attributes (the reader's "
+                 "header re-serialisation normalises them) and are not tampered", "envelope/keystore layouts derived from the reader's references + fixtures"],
+    real=["dissect.hypervisor.util.envelope", "dissect.hypervisor.tools.envelope.main", "PyCryptodome AES-GCM", "hashlib"],
+    stubs=["envelope sealer", "keystore writer", "tamper injector", "namespace (SimFS) for the CLI"],
+)
+
 NOT_BUILT_REASON = "check not built yet in this session (see DESIGN.md section 11 for the build order); not claimed until its engine exists"
 
 NOT_APPLICABLE = {
@@ -177,6 +209,14 @@ _DISK_NOTE = ("trusted base: the writer stub's reading of the format, the refere
 _DISK_TECH = "deterministic simulation (stub writer peer + simulated storage + reference model oracle), seeded search, ddmin replay"
 
 MANIFEST_TEXT = {
+    "C15": dict(text="deterministic simulation against a stub sealer: fault-free round trips over the cipher/MAC/KDF matrix and enumerated "
+                     "single-byte tamper faults over every encrypted field; oracle: exact entries / raises with attr unchanged",
+                design_ref="DESIGN.md 4/C15", note="complete over the enumerated (position x mask) grid of the sampled configurations; sealer shares provenance with the reader (fixture-anchored)",
+                technique="deterministic simulation with tamper-fault enumeration (byte x mask over every authenticated field) against a stub sealer peer"),
+    "C16": dict(text="deterministic simulation against stub envelope/keystore sealers incl. the CLI on a simulated namespace: round trips and "
+                     "enumerated tamper faults over header attributes, ciphertext, tag, tag size, AAD, key",
+                design_ref="DESIGN.md 4/C16", note="complete over the enumerated tamper grid of the sampled configurations; sealer shares provenance with the reader (fixture-anchored, see evidence 'anchors')",
+                technique="deterministic simulation with tamper-fault enumeration against a stub sealer peer; CLI output checked on the simulated namespace"),
     "C19": dict(text="deterministic simulation with an enumerated grid of hostile XML documents at every XML entry point; oracle: refused, "
                      "no OS open / honeypot read / network audit event, step and allocation budgets; control documents parse identically",
                 design_ref="DESIGN.md 4/C19", note="complete over the enumerated grid (families x depths x positions); the grid samples 'all XML documents'",
